@@ -174,6 +174,10 @@ theorem map_liftItem_projects (s s₁ : DState) (y : String) (a : IAct)
     rw [h] at h2
     exact liftItem_projects' s s₁ y a s' s'' e0 hs hl h2 x
 
+theorem markFal_items (s : DState) (tid item : String) (kind : LKind) :
+    (markFal s tid item kind).items = s.items := by
+  unfold markFal; split <;> (try split) <;> rfl
+
 /-- one global step = at most one item step. -/
 theorem gstep_projects (s s' : DState) (tid : String) (op : OpClass) (lsnItem : String) (e : List GEff)
     (h : gstep s tid op lsnItem = some (s', e)) :
@@ -186,7 +190,7 @@ theorem gstep_projects (s s' : DState) (tid : String) (op : OpClass) (lsnItem : 
   all_goals first
     | contradiction
     | (simp only [Option.some.injEq, Prod.mk.injEq] at h; obtain ⟨rfl, rfl⟩ := h; exact Or.inl rfl)
-    | (refine liftItem_projects s _ _ _ _ _ ?_ h x; rfl)
+    | (refine liftItem_projects s _ _ _ _ _ ?_ h x; first | rfl | exact markFal_items _ _ _ _)
     | (simp only [Option.some.injEq, Prod.mk.injEq] at h; obtain ⟨rfl, rfl⟩ := h
        have hl := (by assumption : liftItem _ _ _ = some _)
        exact liftItem_projects' s s _ _ _ _ _ rfl hl rfl x)
